@@ -128,8 +128,9 @@ impl<F: RichField + Extendable<D>, const D: usize> CircuitBuilder<F, D> {
         let dummy_circuit = dummy_circuit::<F, C, D>(common_data);
         let dummy_proof_with_pis = dummy_proof::<F, C, D>(&dummy_circuit, HashMap::new())?;
         let dummy_proof_with_pis_target = self.add_virtual_proof_with_pis(common_data);
+        // The dummy verifier data belong to the dummy (inner) circuit: its cap height, not the one of the circuit being built.
         let dummy_verifier_data_target =
-            self.add_virtual_verifier_data(self.config.fri_config.cap_height);
+            self.add_virtual_verifier_data(common_data.config.fri_config.cap_height);
 
         self.add_simple_generator(DummyProofGenerator {
             proof_with_pis_target: dummy_proof_with_pis_target.clone(),
